@@ -38,6 +38,8 @@ type Party interface {
 	unlock()
 	markStoredBeforeStart()
 	hasStoredBeforeStart() bool
+	setFailed(*Error)
+	failed() *Error
 }
 
 type BaseParty struct {
@@ -46,6 +48,8 @@ type BaseParty struct {
 	FirstRound Round
 	// a message was stored while no round was set, i.e. it was delivered before Start()
 	storedBeforeStart bool
+	// the error with which a round failed; the party does not process anything after that
+	failure *Error
 }
 
 func (p *BaseParty) Running() bool {
@@ -117,6 +121,16 @@ func (p *BaseParty) hasStoredBeforeStart() bool {
 	return p.storedBeforeStart
 }
 
+func (p *BaseParty) setFailed(err *Error) {
+	if p.failure == nil {
+		p.failure = err
+	}
+}
+
+func (p *BaseParty) failed() *Error {
+	return p.failure
+}
+
 func (p *BaseParty) lock() {
 	p.mtx.Lock()
 }
@@ -153,6 +167,7 @@ func BaseStart(p Party, task string, prepare ...func(Round) *Error) *Error {
 		common.Logger.Debugf("party %s: %s round %d finished", p.PartyID(), task, 1)
 	}()
 	if err := p.round().Start(); err != nil {
+		p.setFailed(err)
 		return err
 	}
 	// Messages that were delivered before Start() have only been stored. If no further message arrives
@@ -160,6 +175,7 @@ func BaseStart(p Party, task string, prepare ...func(Round) *Error) *Error {
 	// round 1 message before its Start), so evaluate them now, the way BaseUpdate does after storing one.
 	for p.hasStoredBeforeStart() && p.round() != nil {
 		if _, err := p.round().Update(); err != nil {
+			p.setFailed(err)
 			return err
 		}
 		if !p.round().CanProceed() {
@@ -167,6 +183,7 @@ func BaseStart(p Party, task string, prepare ...func(Round) *Error) *Error {
 		}
 		if p.advance(); p.round() != nil {
 			if err := p.round().Start(); err != nil {
+				p.setFailed(err)
 				return err
 			}
 		}
@@ -186,6 +203,10 @@ func BaseUpdate(p Party, msg ParsedMessage, task string) (ok bool, err *Error) {
 		return ok, err
 	}
 	p.lock() // data is written to P state below
+	if err := p.failed(); err != nil {
+		// a round of this party has failed: its state is incomplete and later rounds must not run on it
+		return r(false, err)
+	}
 	common.Logger.Debugf("party %s received message: %s", p.PartyID(), msg.String())
 	if p.round() != nil {
 		common.Logger.Debugf("party %s round %d update: %s", p.PartyID(), p.round().RoundNumber(), msg.String())
@@ -199,11 +220,13 @@ func BaseUpdate(p Party, msg ParsedMessage, task string) (ok bool, err *Error) {
 	if p.round() != nil {
 		common.Logger.Debugf("party %s: %s round %d update", p.round().Params().PartyID(), task, p.round().RoundNumber())
 		if _, err := p.round().Update(); err != nil {
+			p.setFailed(err)
 			return r(false, err)
 		}
 		if p.round().CanProceed() {
 			if p.advance(); p.round() != nil {
 				if err := p.round().Start(); err != nil {
+					p.setFailed(err)
 					return r(false, err)
 				}
 				rndNum := p.round().RoundNumber()
